@@ -21,6 +21,7 @@ type histShape struct {
 	steps  int
 	idle   int // idle operation pairs issued first (advances clocks past 10/100/1000)
 	idleOn int
+	clock  uint64 // non-zero: the idle replica starts at this (large) clock value
 }
 
 func drawShape(c *core.Case, maxSteps int) histShape {
@@ -37,10 +38,18 @@ func drawShape(c *core.Case, maxSteps int) histShape {
 		}
 	}
 	s.idleOn = r.Intn(s.nrep)
+	if r.Intn(10) == 0 {
+		clocks := []uint64{1<<31 - 3, 1<<32 - 3, 1<<53 - 3, 1<<62 - 100000}
+		s.clock = clocks[r.Intn(len(clocks))]
+	}
 	return s
 }
 
 func runIdle(h *crdt.Hist, s histShape) (string, string) {
+	if s.clock != 0 {
+		h.S.Step("r%d starts at clock %d", s.idleOn, s.clock)
+		crdt.InstallClock(h.Reps[s.idleOn], s.clock)
+	}
 	if s.idle == 0 {
 		return "", ""
 	}
